@@ -20,7 +20,7 @@ RULE = ("tables of 0..N rows for Interval, Bed6, Bed12, BedGraph, NarrowPeak, Ch
         "(calls / one stream) on a plain or gzip target; 'w' writer for the first k pieces then one appending writer per piece or "
         "one appending writer fed by a stream, for every k, plain or gzip; only appending writers on a new file, a new gzip file, "
         "or an existing empty file; header-bearing formats (VCF, a delimited buffer with a column-name header) with ZERO rows in total "
-        "(one empty table, several empty pieces, a stream of empty chunks); lazily read tables re-written from row-indexed pieces (slices, masks, index lists, and RE-ORDERINGS of a contiguous run of source lines: inside permuted with first and last line in place, adjacent swap, rotation, reversal, order of a column); HEADERS THAT BELONG TO THE TABLE: in-memory tables carrying a header context of their own "
+        "(one empty table, several empty pieces, a stream of empty chunks); a REFUSED write call (table of another class, table-valued INFO built on the valid table's own columns, unserialisable last column) on the same writer just before a valid piece; lazily read tables re-written from row-indexed pieces (slices, masks, index lists, and RE-ORDERINGS of a contiguous run of source lines: inside permuted with first and last line in place, adjacent swap, rotation, reversal, order of a column); HEADERS THAT BELONG TO THE TABLE: in-memory tables carrying a header context of their own "
         "(VCF / SAM / '#' comment blocks, generated per case) must be written with exactly that header, source files of the lazy ops "
         "carry per-case headers, and in many cases ANOTHER file of the same format with another header is read lazily first and kept "
         "alive in the same process; observables: the exact bytes on disk, the table read back, the number of records reported by bnp.count_entries, and the bytes of the write -> read (default, lazy) -> "
@@ -360,6 +360,7 @@ def cases(tier, rng):
     yield from rewrite_cases(tier, rng)
     yield from replace_cases(tier, rng)
     yield from again_cases(tier, rng)
+    yield from fail_cases(tier, rng)
     # 2c. header-bearing formats with zero rows in total: the header must still be there exactly once
     for fmt in ("vcf", "vcfs", "vcf2", "csvh", "csvb"):
         for cuts in ([], [0], [0, 0], [0, 0, 0]):
@@ -755,6 +756,60 @@ def _chain(c, BT, p, first_bytes):
         return {"err": "chain:" + type(e).__name__}
 
 
+# a write call the writer must REFUSE (it raises on the unchanged package for these format / kind pairs), made on the same
+# writer just before a valid table is written: "wrong_class" = a table of a data class without the format's fields;
+# "shared" = a VCF table built from the valid table's OWN column arrays plus an INFO column that is a table (what an
+# eagerly read VCF with ##INFO declarations holds); "poison_last" = the valid table with its last (list) column replaced
+FAIL_KINDS = {"vcf": ["wrong_class", "shared"], "vcfs": ["wrong_class", "shared"], "vcf2": ["wrong_class", "shared"],
+              "gfa": ["wrong_class"], "fasta": ["wrong_class"], "fasta2": ["wrong_class"], "fastq": ["wrong_class"],
+              "bed12": ["poison_last"], "csvb": ["poison_last"]}
+
+
+def _refused_write(f, c, t):
+    """the refused call; returns True iff it raised. The caller goes on with the same writer and the same table `t`."""
+    import dataclasses
+    import bionumpy.datatypes as dt
+    kind = c["fail"]["kind"]
+    n = max(len(t), 1)
+    other = dt.Interval(["c"] * n, list(range(n)), list(range(1, n + 1)))
+    if kind == "shared" and len(t):
+        bad = dt.VCFEntry(t.chromosome, t.position, t.id, t.ref_seq, t.alt_seq, t.quality, t.filter, other)
+    elif kind == "poison_last" and len(t):
+        bad = dataclasses.replace(t, **{dataclasses.fields(t)[-1].name: other})
+    else:
+        bad = other if "chromosome" not in [x.name for x in dataclasses.fields(t)] or c["fmt"] in VCF_KINDS else \
+            dt.SequenceEntry(["a", "b"], ["AC", "G"])
+    if c.get("ctx_hdr"):
+        bad.set_context("header", c["ctx_hdr"])
+    try:
+        f.write(bad)
+    except Exception:
+        return True
+    return False
+
+
+def fail_cases(tier, rng):
+    """STATE LEFT BY A FAILED CALL: in an ordinary write plan (any cut of the rows, any writer plan) one extra write call
+    that the writer refuses is made on the same writer just before piece `at`; the file must be what it is without that
+    call (header once, every POS shifted once), i.e. one write of the concatenated table"""
+    per = {"quick": 12, "thorough": 150, "widen": 40}[tier]
+    for fmt, kinds in FAIL_KINDS.items():
+        for _ in range(per):
+            n = rng.choice([1, 2, 3, 5])
+            rows = [g_row(rng, fmt) for _ in range(n)]
+            cuts = sorted(rng.sample(range(0, n + 1), min(n + 1, rng.choice([0, 0, 1, 2]))))
+            case = {"op": "write", "fmt": fmt, "rows": rows, "cuts": cuts, "mode": rng.choice(MODES),
+                    "first": rng.randrange(1, len(cuts) + 2)}
+            at = rng.choice([0, 0, rng.randrange(0, len(cuts) + 1)])
+            kind = rng.choice(kinds)
+            if kind != "wrong_class":             # built from the valid table itself: needs a piece with rows
+                b = [0] + cuts + [n]
+                full = [i for i in range(len(b) - 1) if b[i + 1] > b[i]]
+                at = at if at in full else full[0]
+            case["fail"] = {"at": at, "kind": kind}
+            yield _ctx(rng, case)
+
+
 def impl(c):
     if c["op"] == "rewrite":
         return _impl_rewrite(c)
@@ -781,18 +836,27 @@ def impl(c):
         if mode == "append0_empty":
             open(p, "wb").close()                  # an existing, empty target
         i = 0
+        refused = []
         for om, stream, cnt in sessions(c):
             part = tables[i:i + cnt]
             i += cnt
             with bnp.open(p, om, buffer_type=BT) as f:
+                fail = c.get("fail")
+                k = fail["at"] - (i - cnt) if fail else -1            # position of the table the refused call precedes
                 if stream:
+                    if 0 <= k < cnt:
+                        refused.append(_refused_write(f, c, part[k]))
                     f.write(NpDataclassStream(iter(part), dataclass=getattr(dt, T[fmt][1]) if T[fmt][1] else _csvb_class()))
                 else:
-                    for t in part:
+                    for j, t in enumerate(part):
+                        if j == k:
+                            refused.append(_refused_write(f, c, t))
                         f.write(t)
         raw = open(p, "rb").read()
         data = gzip.decompress(raw) if gz and raw else raw
         out = {"bytes": data.decode("latin1")}
+        if c.get("fail"):
+            out["refused"] = refused
     except Exception as e:
         return {"err": "write:" + type(e).__name__}
     try:
@@ -1004,6 +1068,8 @@ def agree(c, got, exp):
         return _agree_replace(c, got["bytes"], exp["bytes"]) or ("alt" in exp and _agree_replace(c, got["bytes"], exp["alt"]))
     fmt = c["fmt"]
     text = got["bytes"]
+    if c.get("fail") and got.get("refused") not in ([True], []):
+        return False                 # the table that cannot be written in this format was accepted
     if c.get("ctx_hdr"):
         # the table carries its own header: the file is exactly that header (once, iff a write call was made) ++ the records
         if text != (c["ctx_hdr"] if exp["headers"] else "") + exp["body"]:
@@ -1094,6 +1160,8 @@ def finding_key(c, got, exp):
         if isinstance(got, dict) and got.get("unchanged") is False:
             return f"write-again:{fmt}:table-object-modified-by-write"
         return f"write-again:{fmt}:{'raises' if isinstance(got, dict) and 'err' in got else 'bytes-differ'}"
+    if c.get("fail"):
+        return f"after-refused-write:{fmt}:{c['fail']['kind']}:{'raises' if isinstance(got, dict) and 'err' in got else 'file-differs'}"
     if fmt == "fasta" and any(len(r[1]) == 0 for r in c["rows"]):
         return "fasta-write:empty-sequence"
     if isinstance(got, dict) and got.get("err", "").startswith("write:"):
